@@ -23,7 +23,7 @@ func init() {
 			{Name: "pullid-subscribe-in-goroutine", File: "pkg/resource/collection.go", Old: "\tchanges := c.Pull(ctx, opts...)\n\n\tsend := make(chan *ValueChange)\n\tgo func() {\n\t\tdefer close(send)\n\t\tdefer cancel()\n", New: "\tsend := make(chan *ValueChange)\n\tgo func() {\n\t\tdefer close(send)\n\t\tdefer cancel()\n\t\tchanges := c.Pull(ctx, opts...)\n", Expect: "R03.2"},
 			{Name: "delete-publish-after-unlock", File: "pkg/resource/collection.go", Old: "\t\tdelete(c.byId, id)\n\t\tc.bus.Send(", New: "\t\tdelete(c.byId, id)\n\t\tc.mu.Unlock()\n\t\tc.mu.Lock()\n\t\tc.bus.Send(", Expect: "R03.3"},
 			{Name: "publish-request-value", File: "pkg/resource/value.go", Old: "\t\tValue:      newValue,\n", New: "\t\tValue:      value,\n", Expect: "R03.4"},
-			{Name: "publish-other-id", File: "pkg/resource/collection.go", Old: "\t\tId:         id,\n\t\tChangeTime: writeRequest.updateTime(c.clock),", New: "\t\tId:         \"\",\n\t\tChangeTime: writeRequest.updateTime(c.clock),", Expect: "R03.4"},
+			{Name: "publish-other-id", File: "pkg/resource/collection.go", Old: "\t\tId:         id,\n\t\tChangeTime: changeTime,", New: "\t\tId:         \"\",\n\t\tChangeTime: changeTime,", Expect: "R03.4"},
 			{Name: "pullid-forwards-all", File: "pkg/resource/collection.go", Old: "\t\t\tif change.Id != id {\n\t\t\t\tcontinue\n\t\t\t}\n", New: "", Expect: "R03.7"},
 			{Name: "pullid-ignores-remove", File: "pkg/resource/collection.go", Old: "\t\t\tif change.ChangeType == types.ChangeType_REMOVE {\n\t\t\t\treturn\n\t\t\t}\n", New: "\t\t\tif change.ChangeType == types.ChangeType_REMOVE {\n\t\t\t\tcontinue\n\t\t\t}\n", Expect: "R03.7"},
 			{Name: "lock-instead-of-rlock", Silent: true, File: "pkg/resource/value.go", Old: "\t\tr.mu.RLock()\n\t\tdefer r.mu.RUnlock()\n\t\tvalue = r.value", New: "\t\tr.mu.Lock()\n\t\tdefer r.mu.Unlock()\n\t\tvalue = r.value"},
